@@ -35,6 +35,7 @@ PROFILES = {
                  'p_syscap': 0.0, 'arr_scale': 0.6, 'p_ps': 0.0, 'p_cct': 0.3, 'disciplines': ['FIFO', 'FIFO', 'LIFO']},
     'c09': {'n_nodes': [2, 3, 3, 4], 'routing_kinds': ['tm', 'nr', 'nr', 'nr', 'pb', 'fpb', 'fpb'], 'p_ccm': 0.5,
             'node_routers': ['leave', 'direct', 'prob', 'jsq', 'jsq', 'lb', 'lb', 'cycle']},
+    'linger': {'disciplines': ['LINGER:1.0', 'LINGER:0.4', 'SECOND', 'FIFO'], 'p_ps': 0.0, 'n_classes': [2, 2, 3], 'p_lattice': 0.3},
     'c10': {'p_batch': 0.6, 'p_share_objects': 0.5, 'p_lattice': 0.55},
     'c09jsq': {'n_nodes': [2, 3, 3, 4], 'n_classes': [2, 3], 'routing_kinds': ['nr', 'nr', 'fpb'], 'node_routers': ['jsq', 'jsq', 'lb', 'jsq', 'prob'],
                'p_prio': 1.0, 'force_distinct_prio': True, 'p_prio_preempt': 1.0, 'prio_preempt_opts': ['reroute', 'reroute', 'resume', False],
@@ -82,20 +83,20 @@ def scope_c11(spec, f):
 
 # property -> (list of (profile, weight), scope predicate, deciding counters (any > 0 makes a run non-trivial))
 PLANS = {
-    'C01': ([('generic', 4), ('lattice', 2), ('ring', 2), ('c11', 1), ('c12', 1), ('slotall', 1), ('infall', 1), ('c02ps', 1)], scope_all, ['kinds.accept']),
-    'C02': ([('generic', 4), ('lattice', 2), ('c12', 2), ('c11', 1), ('ring', 1), ('c02ps', 1), ('exactall', 1)], scope_all, ['C02.records']),
-    'C03': ([('generic', 4), ('ring', 2), ('c11', 2), ('c13', 1), ('c12', 1)], scope_all, ['C03.records']),
-    'C04': ([('generic', 3), ('c04util', 4), ('ring', 2), ('c12', 1)], scope_all, ['C04.attaches']),
+    'C01': ([('generic', 4), ('lattice', 2), ('ring', 2), ('c11', 1), ('c12', 1), ('slotall', 1), ('infall', 1), ('c02ps', 1), ('linger', 1)], scope_all, ['kinds.accept']),
+    'C02': ([('generic', 4), ('lattice', 2), ('c12', 2), ('c11', 1), ('ring', 1), ('c02ps', 1), ('exactall', 1), ('linger', 1)], scope_all, ['C02.records']),
+    'C03': ([('generic', 4), ('ring', 2), ('c11', 2), ('c13', 1), ('c12', 1), ('linger', 1)], scope_all, ['C03.records']),
+    'C04': ([('generic', 3), ('c04util', 4), ('ring', 2), ('c12', 1), ('linger', 1)], scope_all, ['C04.attaches']),
     'C05': ([('c05', 5), ('generic', 3), ('c12', 1), ('c13', 1)], scope_all, ['C05.snapshots_with_waiting']),
     'C06': ([('c06', 7), ('generic', 3)], scope_c06, ['C06.arrivals_when_full']),
     'C07': ([('c07', 6), ('ring', 2), ('generic', 2)], scope_c07, ['C07.blocks']),
     'C08': ([('c08', 5), ('c08sched', 2), ('generic', 3), ('c11', 1)], scope_all, ['C08.service_starts_with_choice', 'C08.slot_starts']),
     'C09': ([('c09', 5), ('c09jsq', 3), ('generic', 3)], scope_all, ['C09.routing_decisions']),
-    'C10': ([('c10', 5), ('generic', 4), ('lattice', 1), ('exactlattice', 1)], scope_all, ['C10.services']),
+    'C10': ([('c10', 5), ('generic', 4), ('lattice', 1), ('exactlattice', 1), ('linger', 2)], scope_all, ['C10.services']),
     'C11': ([('c11', 9), ('generic', 1)], scope_c11, ['C11.preemptions']),
     'C12': ([('c12', 7), ('slotall', 1), ('generic', 2)], scope_all, ['C12.shift_changes', 'C12.slots']),
     'C13': ([('c13', 6), ('c13lat', 2), ('generic', 3)], scope_all, ['C13.renege_events', 'C13.baulk_decisions']),
-    'C14': ([('c14', 3), ('c14lattice', 2), ('c14wide', 4), ('c12', 1), ('c11', 1), ('c13', 1), ('ring', 1), ('c09', 1), ('exactall', 1), ('c13lat', 1)], scope_all, ['C14.runs_completed']),
+    'C14': ([('c14', 3), ('c14lattice', 2), ('c14wide', 4), ('c12', 1), ('c11', 1), ('c13', 1), ('ring', 1), ('c09', 1), ('exactall', 1), ('c13lat', 1), ('linger', 1)], scope_all, ['C14.runs_completed']),
     'C17': ([('c17', 6), ('c17ncm', 2), ('generic', 2), ('ring', 1)], lambda spec, f: bool(spec.get('tracker')), ['C17.state_comparisons']),
 }
 
